@@ -100,6 +100,13 @@ def check(ctx: Ctx) -> str:
 
     ctx.check(_parts(astq.returns(gf.nnode)[0].value) == ["ModuleLoader.get_template_key(name)", "'.py'"], "key:filename", "loaders:ModuleLoader.get_module_filename", "file name from the key", "the module file name must be get_template_key(name) + '.py'", gf.loc())
     ctx.check(_parts(astq.returns(gk.nnode)[0].value) == ["'tmpl_'", "sha1(name.encode('utf-8')).hexdigest()"], "key:hash", "loaders:ModuleLoader.get_template_key", "key function", "the template key must be tmpl_<sha1 of the name>", gk.loc())
+    # ... of the name exactly as given: templates are distinct whenever their names are (a
+    # DictLoader / FunctionLoader template "./a" is not "a"), so neither function rewrites `name`
+    for f_ in (gf, gk):
+        rb = [x for x in ast.walk(f_.node) if isinstance(x, ast.Name) and x.id == "name" and isinstance(x.ctx, ast.Store)]
+        ctx.check(not rb, f"key:name-unmodified:{f_.node.name}", f"loaders:ModuleLoader.{f_.node.name}", "the template name is rewritten before hashing" if rb else "name hashed as given",
+                  f"ModuleLoader.{f_.node.name} rebinds `name` before computing the key: two distinct template names of the source loader ('./a.html' and 'a.html' are different entries of a DictLoader) collapse into one module file, so after precompilation one of them renders the other's content",
+                  f_.loc(rb[0]) if rb else f_.loc())
     ld = repo.func("loaders:ModuleLoader.load")
     s = ast.unparse(ld.node)
     imps = [c for c in astq.calls(ld.node) if astq.callee(c) == "__import__" and c.args]
